@@ -53,6 +53,7 @@ type Contract struct {
 	Line        int
 	Role        string
 	IfaceDecl   bool
+	HavocArgs   bool
 	Deterministic []string // property tags: the function's result is a function of its arguments
 }
 
